@@ -22,6 +22,9 @@ def run(ctx):
         for cc, dm in (('/usr/bin/gcc', True), ('/usr/bin/gcc', False), ('/usr/bin/clang', True)):
             res = sysmon.st.run_histories(sysmon.sysroot(ctx, 'c03'), f'c03{os.path.basename(cc)}{dm}', cc, ctx.seed * 11 + dm, nh, nr, direct_mode=dm)
             sysmon.feed(ctx, res, findings, f'system {os.path.basename(cc)} preprocessor_cache_mode={dm}')
+        for cc in ('/usr/bin/gcc', '/usr/bin/clang'):
+            res = sysmon.st.run_corpus(sysmon.sysroot(ctx, 'c03'), 'c03c' + os.path.basename(cc), cc)
+            sysmon.feed(ctx, res, findings, f'system corpus histories {os.path.basename(cc)}')
         # entries damaged behind the server's back: the request after the damage recompiles and stores, the one after that must hit again
         res = sysmon.st.run_fault_histories(sysmon.sysroot(ctx, 'c03'), 'c03f', '/usr/bin/gcc', ctx.seed * 37, 4 if ctx.quick() else 30, 8 if ctx.quick() else 20)
         sysmon.feed(ctx, res, findings, 'system gcc, damaged entries then repeats')
